@@ -30,7 +30,8 @@ RULES["C08"] = (
 ASSUMPTIONS["C08"] = [
     "DAE goes through the third-party pycollada writer: coordinates compared at a declared relative 2e-6 (order, counts and placement still exact)",
     "formats that only store vertex colours (obj, glb/gltf) are compared on vertex-coloured sources; face colours are compared for ply and dict",
-    "3mf archives embed fresh UUIDs, so 'two exports give identical bytes' is not asserted for 3mf",
+    "3mf archives embed fresh UUIDs and pycollada writes a creation time, so 'two exports give identical bytes' is not asserted for 3mf / dae",
+    "ascii PLY stores float32 values printed with 8 fixed decimals and carries no face colours (as coded in export_ply); PLY attributes are read back from metadata['_ply_raw'] as the in-tree tests do",
 ]
 
 _f = lambda lo, hi: st.floats(lo, hi, allow_nan=False, allow_infinity=False)  # noqa
@@ -38,8 +39,8 @@ _f = lambda lo, hi: st.floats(lo, hi, allow_nan=False, allow_infinity=False)  # 
 F32 = {"stl", "ply", "glb", "gltf"}
 EXACT = {"stl_ascii", "3mf", "dict", "dict64"}
 DIGITS = {"obj": 8, "off": 10}
-INDEXED = {"ply", "off", "obj", "glb", "gltf", "3mf", "dict", "dict64", "dae"}
-SCENE_FORMATS = ["glb", "gltf", "3mf", "dae"]
+INDEXED = {"ply", "off", "obj", "glb", "gltf", "3mf", "dict", "dict64"}  # dae goes through pycollada which re-indexes
+SCENE_FORMATS = ["glb", "gltf", "3mf"]  # the DAE exporter is registered for single meshes only (scene.export raises ValueError)
 
 
 class DictResolver(trimesh.resolvers.Resolver):
@@ -134,7 +135,7 @@ def do_load(data, fmt, entry, via_path):
         else:
             loaded = trimesh.load(obj, file_type=ftype, **kwargs)
     elif via_path and fmt != "gltf":
-        path = os.path.join(os.getcwd(), f"vf_c08.{fmt}")
+        path = os.path.join(os.getcwd(), f"vf_c08_{os.getpid()}.{fmt}")
         with open(path, "wb") as f:
             f.write(payload)
         try:
@@ -171,7 +172,16 @@ def compare_triangles(fmt, kw, got, src, sig):
     check(got.shape == src.shape, sig + "|triangle_count", f"{got.shape} vs {src.shape}")
     if src.size == 0:
         return
-    if fmt in F32:
+    if fmt == "ply" and kw.get("encoding") == "ascii":
+        # ascii PLY prints the float32 value with 8 fixed decimals (util.structured_array_to_string default)
+        want = src.astype(np.float32).astype(np.float64)
+        # ... and the reader stores the parsed number as float32 again: half a float32 ulp on top of half a decimal unit
+        tol = 0.5e-8 + np.spacing(np.abs(want).astype(np.float32)).astype(np.float64)
+        bad = np.abs(got - want) > tol
+        if bad.any():
+            i = tuple(int(x) for x in np.argwhere(bad)[0])
+            raise Violation(sig + "|coordinates_beyond_text_precision", f"triangle/vertex/axis {i}: loaded {got[i]!r} vs float32(source) {want[i]!r}")
+    elif fmt in F32:
         want = src.astype(np.float32).astype(np.float64)
         bad = got != want
         if bad.any():
@@ -213,10 +223,25 @@ def b_mesh(case, ctx):
         st0 = source_state(m)
         data = do_export(m, fmt, kw)
         check(source_state(m) == st0, sig + "|export_modified_source", "hash / vertices / faces / visual of the source changed during export")
-        if fmt != "3mf":
+        if fmt not in ("3mf", "dae"):
             data2 = do_export(m, fmt, kw)
             same = (data == data2) if not isinstance(data, dict) else (json.dumps(data, sort_keys=True, default=lambda o: o.hex() if isinstance(o, bytes) else str(o)) == json.dumps(data2, sort_keys=True, default=lambda o: o.hex() if isinstance(o, bytes) else str(o)))
             check(same, sig + "|export_not_deterministic", "two exports of the same object differ")
+        # independent reading of the exported bytes for the two simplest formats (a writer and reader that share a wrong
+        # record layout would round-trip with each other)
+        if fmt == "stl":
+            raw = as_bytes(data)
+            n = int(np.frombuffer(raw[80:84], dtype="<u4")[0])
+            check(n == nf and len(raw) == 84 + 50 * nf, sig + "|stl_layout|count_or_length", f"count {n}, length {len(raw)} for {nf} faces")
+            rec = np.frombuffer(raw[84:], dtype=np.dtype([("n", "<f4", (3,)), ("v", "<f4", (3, 3)), ("a", "<u2")]))
+            check(np.array_equal(rec["v"].astype(np.float64), tri0.astype(np.float32).astype(np.float64)), sig + "|stl_layout|vertices", "little-endian float32 records do not hold the triangles")
+        if fmt == "off":
+            toks = as_bytes(data).decode().split()
+            check(toks[0] == "OFF" and int(toks[1]) == len(m.vertices) and int(toks[2]) == nf, sig + "|off_layout|header", str(toks[:4]))
+            vv = np.array(toks[4 : 4 + 3 * len(m.vertices)], dtype=np.float64).reshape((-1, 3))
+            ff = np.array(toks[4 + 3 * len(m.vertices) :], dtype=np.int64).reshape((-1, 4))
+            check((ff[:, 0] == 3).all() and np.array_equal(ff[:, 1:], np.asarray(m.faces)), sig + "|off_layout|faces", "face rows are not '3 a b c' in source order")
+            check((np.abs(vv - np.asarray(m.vertices)) <= 0.5 * 10.0 ** (-kw.get("digits", 10)) + 2 * ulp(np.asarray(m.vertices))).all(), sig + "|off_layout|vertices", "")
         loaded = do_load(data, fmt, case["entry"], case["via_path"])
         inst = flatten(loaded)
         meshes = [(g, T) for g, T in inst if isinstance(g, trimesh.Trimesh)]
@@ -230,7 +255,7 @@ def b_mesh(case, ctx):
             check(len(g.vertices) == len(m.vertices), sig + "|vertex_count", f"{len(g.vertices)} vs {len(m.vertices)}")
             check(np.array_equal(np.asarray(g.faces), np.asarray(m.faces)), sig + "|faces_changed", "face indices differ")
         col = case["mesh"].get("colors")
-        if col == "face" and fmt in ("ply", "dict", "dict64"):
+        if col == "face" and fmt in ("ply", "dict", "dict64") and not (fmt == "ply" and kw.get("encoding") == "ascii"):
             check(g.visual.kind == "face" and np.array_equal(np.asarray(g.visual.face_colors), np.asarray(m.visual.face_colors)), sig + "|face_colors", "face colours not preserved in order")
         if col == "vertex" and fmt in ("ply", "dict", "dict64", "glb", "gltf", "obj"):
             if fmt == "obj" and not kw.get("include_color", True):
@@ -242,8 +267,14 @@ def b_mesh(case, ctx):
                 mc = np.asarray(m.visual.vertex_colors)[np.asarray(m.faces)]
                 check(np.array_equal(gc, mc), sig + "|vertex_colors", "vertex colours not attached to the same corners")
         if case["mesh"].get("attributes") and fmt == "ply" and kw.get("include_attributes", True):
-            check("ftag" in g.face_attributes and np.array_equal(np.asarray(g.face_attributes["ftag"]).reshape(-1), np.asarray(m.face_attributes["ftag"])), sig + "|face_attributes", str(list(g.face_attributes)))
-            check("vtag" in g.vertex_attributes and np.array_equal(np.asarray(g.vertex_attributes["vtag"]).reshape(-1), np.asarray(m.vertex_attributes["vtag"])), sig + "|vertex_attributes", str(list(g.vertex_attributes)))
+            # the loader documents (tests/test_ply.py) extra PLY properties under metadata['_ply_raw'][element]['data']
+            raw = g.metadata.get("_ply_raw", {})
+            fd = raw.get("face", {}).get("data", {})
+            vd = raw.get("vertex", {}).get("data", {})
+            names_f = fd.dtype.names if hasattr(fd, "dtype") and fd.dtype.names else list(fd)
+            names_v = vd.dtype.names if hasattr(vd, "dtype") and vd.dtype.names else list(vd)
+            check("ftag" in names_f and np.array_equal(np.asarray(fd["ftag"]).reshape(-1), np.asarray(m.face_attributes["ftag"])), sig + "|face_attributes", str(names_f))
+            check("vtag" in names_v and np.array_equal(np.asarray(vd["vtag"]).reshape(-1).astype(np.float32), np.asarray(m.vertex_attributes["vtag"])), sig + "|vertex_attributes", str(names_v))
 
 
 @body("C08.points")
@@ -432,4 +463,4 @@ def s_big(ctx):
     ctx.given("C08.mesh", mesh_case(formats=["glb", "ply", "stl", "off"], big=True), n={"quick": 6, "thorough": 80})
 
 
-REQUIRED_CLASSES["C08"] = ["fmt:stl", "fmt:ply", "fmt:obj", "fmt:glb", "fmt:gltf", "fmt:3mf", "fmt:dae", "fmt:off", "fmt:dict64", "fmt:stl_ascii", "scene:glb", "scene:3mf", "points:xyz"]
+REQUIRED_CLASSES["C08"] = ["fmt:stl", "fmt:ply", "fmt:obj", "fmt:glb", "fmt:gltf", "fmt:3mf", "fmt:dae", "fmt:off", "fmt:dict64", "fmt:stl_ascii", "scene:glb", "scene:3mf", "points:xyz:colors=True", "points:xyz:colors=False"]
